@@ -472,4 +472,10 @@ pub fn gen(thorough: bool, seed: u64, out: &mut impl Write) {
   for (n, den) in dense {
     writeln!(out, "C12 dense {} {} {}", n, r.below(1 << 30), den).unwrap();
   }
+  // very large sparse lists, at and just beyond power-of-two byte sizes (limits / buffer sizes of the decoder) and with
+  // entry counts that are no multiple of 8
+  let huge: &[(usize, u64)] = if thorough { &[(8388608, 2), (8388616, 2), (8388609, 1), (1 << 24, 1), ((1 << 24) + 24, 1), (1 << 25, 1), ((1 << 26) + 8, 1)] } else { &[(8388616, 2), ((1 << 24) + 24, 1), (131073, 9)] };
+  for (n, den) in huge {
+    writeln!(out, "C12 dense {} {} {}", n, r.below(1 << 30), den).unwrap();
+  }
 }
